@@ -35,14 +35,15 @@ struct Work {
     int comp;
     unsigned id;
     const std::string* input = nullptr;   // prepared file image (read / render workloads)
+    CDNS::FilePreamble* shared_preamble = nullptr;   // several exporters are constructed from ONE configuration object (the constructor copies it)
+    bool add_params = false;              // this exporter adds a parameter set to its own preamble
     // result
     std::string result;
     std::string error;
 };
 
-void export_records(CDNS::CdnsExporter& ex, const gen::Swarm& sw, uint64_t seed, unsigned n) {
+void export_records(CDNS::CdnsExporter& ex, const gen::Swarm& sw, uint64_t seed, unsigned n, uint64_t tps) {
     Rng r(seed);
-    uint64_t tps = sw.sets[0].storage_parameters.ticks_per_second;
     for (unsigned i = 0; i < n; i++) {
         gen::RecGen g(sw, r.next());
         switch (r.below(4)) {
@@ -72,11 +73,21 @@ void do_work(Work& w) {
                 b.rec = std::make_shared<TSinkRec>();
                 {
                     std::vector<CDNS::BlockParameters> sets = sw.sets;
-                    CDNS::FilePreamble fp(sets);
+                    CDNS::FilePreamble own(sets);
+                    CDNS::FilePreamble& fp = w.shared_preamble ? *w.shared_preamble : own;
                     CDNS::CdnsExporter ex(fp, a, (CDNS::CborOutputCompression)w.comp);
-                    export_records(ex, sw, w.seed, 25);
+                    if (w.add_params) {
+                        CDNS::BlockParameters extra;          // same tick rate as the default set, other block size and hints
+                        extra.storage_parameters.max_block_items = 7;
+                        extra.storage_parameters.storage_hints.query_response_signature_hints = 0x155;
+                        CDNS::index_t idx = ex.add_block_parameters(extra);
+                        ex.set_active_block_parameters(idx);
+                        ex.get_active_block_parameters_ref().storage_parameters.storage_hints.rr_hints = 1;
+                    }
+                    uint64_t tps = w.shared_preamble ? CDNS::DEFAULT_TICKS_PER_SECOND : sw.sets[0].storage_parameters.ticks_per_second;
+                    export_records(ex, sw, w.seed, 25, tps);
                     ex.rotate_output(b, true);
-                    export_records(ex, sw, w.seed + 1, 10);
+                    export_records(ex, sw, w.seed + 1, 10, tps);
                 }
                 w.result = a.rec->data + "|" + b.rec->data;
                 break;
@@ -88,7 +99,7 @@ void do_work(Work& w) {
                     std::vector<CDNS::BlockParameters> sets = sw.sets;
                     CDNS::FilePreamble fp(sets);
                     CDNS::CdnsExporter ex(fp, name, (CDNS::CborOutputCompression)w.comp);
-                    export_records(ex, sw, w.seed, 30);
+                    export_records(ex, sw, w.seed, 30, sw.sets[0].storage_parameters.ticks_per_second);
                 }
                 w.result = name + ext;   // the file is collected from SimFS by the main thread after the join
                 break;
@@ -160,6 +171,22 @@ void sim::engine_threads(RunCtx& cx) {
     // prepared inputs for the readers
     std::vector<std::string> inputs = ppl::produce_files(mix_str(cx.seed, "inputs"), "C01");
     if (inputs.empty()) inputs.push_back(std::string());
+    // half of the prepared inputs come from a foreign producer: indefinite lengths, wide heads, unknown members with nested values
+    // (so that the readers also run the skip / chunked-string paths)
+    for (size_t k = 0; k < inputs.size(); k++) {
+        if (!((mix64(cx.seed, 900 + k)) & 1) || inputs[k].empty()) continue;
+        try {
+            ref::Node root = ref::Decoder(inputs[k]).parse_all();
+            ref::Policy pol;
+            pol.rng = Rng(mix64(cx.seed, 950 + k));
+            pol.indef = 300; pol.widen = 300; pol.permute = 300; pol.unknown = 250;
+            std::string rew;
+            ref::encode_policy(root, pol, rew);
+            inputs[k] = rew;
+            cx.ctr->add("probe.foreign_producer_input");
+        } catch (std::exception&) {}
+    }
+    CDNS::FilePreamble shared_fp;   // one configuration object from which several threads construct their exporters
     F.reset();
     std::vector<Work> solo, conc;
     for (unsigned i = 0; i < n; i++) {
@@ -169,6 +196,7 @@ void sim::engine_threads(RunCtx& cx) {
         w.comp = (int)r.below(3);
         w.id = i;
         w.input = &inputs[r.below(inputs.size())];
+        if (r.coin()) { w.shared_preamble = &shared_fp; w.add_params = r.chance(1, 3); }
         if (!cx.kept(i)) continue;
         solo.push_back(w);
     }
